@@ -197,6 +197,18 @@ func (P *Prog) verifyFunctionCase(fn *ssa.Function, con *Contract, caseParam str
 			vc.errorf("%s may change the world state but has neither 'requires [notstatic]' nor 'ensures [static]'", res.Name)
 		}
 	}
+	if con.opt("recovers") {
+		// "option recovers": no panic raised below this function may escape it. Go stops a panic only if
+		// recover() is called DIRECTLY by a deferred function; the obligation is structural (decided on the SSA,
+		// no solver): a defer, ahead of every other call of the entry block, of a function whose own body calls
+		// the builtin recover.
+		ok, why := recoversDirectly(fn)
+		goal := tTrue
+		if !ok {
+			goal = tFalse
+		}
+		vc.oblige(st, fr, "recover", "direct", goal, "a deferred function of "+res.Name+" calls recover() itself, before anything that may panic ("+why+")", fn.Pos())
+	}
 	if con.opt("trusted") {
 		return res
 	}
@@ -476,4 +488,51 @@ func (vc *VC) partialFrame(exit, entry *State, p *Place, all []modTgt) Term {
 		acc = vc.update(acc, t.place.Path, v)
 	}
 	return tEq(o1, acc)
+}
+
+// recoversDirectly reports whether fn defers, before any other call, a function literal or function whose body
+// contains a direct call of the builtin recover (the only form in which recover stops a panic).
+func recoversDirectly(fn *ssa.Function) (bool, string) {
+	if len(fn.Blocks) == 0 {
+		return false, "no body"
+	}
+	callsRecover := func(f *ssa.Function) bool {
+		for _, b := range f.Blocks {
+			for _, ins := range b.Instrs {
+				if c, ok := ins.(*ssa.Call); ok {
+					if bi, ok := c.Call.Value.(*ssa.Builtin); ok && bi.Name() == "recover" {
+						return true
+					}
+				}
+			}
+		}
+		return false
+	}
+	// calls allowed ahead of the defer: taking the party's lock (they do not run message handlers)
+	for _, ins := range fn.Blocks[0].Instrs {
+		switch x := ins.(type) {
+		case *ssa.Defer:
+			var target *ssa.Function
+			switch v := x.Call.Value.(type) {
+			case *ssa.MakeClosure:
+				target, _ = v.Fn.(*ssa.Function)
+			case *ssa.Function:
+				target = v
+			}
+			if target != nil && callsRecover(target) {
+				return true, "found in " + target.Name()
+			}
+			if target != nil {
+				return false, "the deferred function " + target.Name() + " does not call recover() itself"
+			}
+		case *ssa.Call:
+			if callee := x.Call.StaticCallee(); callee != nil && (strings.HasSuffix(callee.Name(), "lock") || strings.HasSuffix(callee.Name(), "Lock")) {
+				continue
+			}
+			return false, "a call precedes the recovering defer"
+		case *ssa.Go:
+			return false, "a go statement precedes the recovering defer"
+		}
+	}
+	return false, "no recovering defer in the entry block"
 }
